@@ -150,15 +150,27 @@ func JSONGetTime(val *fastjson.Value, prop string) time.Time {
 
 func JSONGetDuration(val *fastjson.Value, prop string) time.Duration {
 	if str := val.Get(prop).GetStringBytes(); len(str) > 0 {
-		var d time.Duration
-		if err := xsd.Unmarshal(str, &d); err == nil {
+		if d, ok := parseXSDDuration(str); ok {
 			return d
 		}
 		// NOTE: fall back to the Go duration syntax that older versions accepted
-		d, _ = time.ParseDuration(string(str))
+		d, _ := time.ParseDuration(string(str))
 		return d
 	}
 	return 0
+}
+
+// parseXSDDuration wraps xsd.Unmarshal, which indexes past the end of some malformed inputs (a lone "-" for example)
+func parseXSDDuration(data []byte) (d time.Duration, ok bool) {
+	defer func() {
+		if r := recover(); r != nil {
+			d, ok = 0, false
+		}
+	}()
+	if err := xsd.Unmarshal(data, &d); err != nil {
+		return 0, false
+	}
+	return d, true
 }
 
 func JSONGetPublicKey(val *fastjson.Value, prop string) PublicKey {
